@@ -42,3 +42,28 @@ PROPS = {
     'C10': {'suites': hub_suite(), 'trusted_base': HUB_TB, 'rule': HUB_RULE,
             'assumptions': ['chain ids are prefix-free', 'uint64 counters do not wrap']},
 }
+
+
+# ---- texts for MANIFEST.json ----
+_HUB_NOTE = ('Trusted: Coq 8.16.1 kernel (vm_compute, no native_compute), extraction (ExtrOcamlBasic) + OCaml driver, the Go harness; the hand-written hub model is tied to /repo '
+             'by co-executing generated histories on the real keepers on every run; x/bank, stores, protobuf are modelled not verified; staking and oracle are inputs.')
+TEXT = {
+    'C04': {'technique': 'Coq invariant by induction over histories + extraction-based correspondence',
+            'level': 'Theorems (all histories, all configurations with prefix-free chain ids): every transfer (chain,id) is at most once in pool+batches, ids within the counter, fresh ids on creation; the status clause is refuted by a kernel-checked witness (known finding). The model is co-executed with the real keeper on generated histories and the placement/status monitor runs on the implementation.',
+            'note': _HUB_NOTE},
+    'C10': {'technique': 'Coq invariant by induction over histories + extraction-based correspondence',
+            'level': 'Theorems: every pending batch of every reachable state has 1..100 transfers of its own chain and token, nonce within the counter, unique per chain; creation rule (first min(100,n) candidates in descending store-key order, nonce/sequence = counter+1, no batch and no counter change on an empty pool). Fee-order vs byte-order of the key is PARTIAL (monitor checks numeric order on the implementation).',
+            'note': _HUB_NOTE},
+    'C11': {'technique': 'Coq algebraic laws over Z (floor/tier lemmas) + extraction-based correspondence',
+            'level': 'Theorems for all amounts, decimals 0..24, rates: exact debit of amount+fee, commission = floor(r*(amount+fee)) with r the configured rate reduced by exactly one tier of the table, scheduled amounts, atomic failure, exact deposit credit with truncation below one unit. Correspondence and monitor on the real msg server and event handler.',
+            'note': _HUB_NOTE},
+    'C12': {'technique': 'Coq lemmas on the cancel/expiry function for every invariant state + correspondence',
+            'level': 'Theorems: cancel succeeds only for an unbatched entry of that chain and its sender; the entry is gone afterwards (pool and batches); hub-origin refund = recorded amounts converted back, exact for >=18 decimals, bounded loss otherwise ("exactly" refuted for <18 decimals: known finding). Monitors check authorisation, removal, amount, destination and expiry on the implementation.',
+            'note': _HUB_NOTE},
+    'C13': {'technique': 'Coq characterisation (iff) of batch removal by sweep and by execution + correspondence',
+            'level': 'Theorems (every state satisfying the proved invariant): the timeout sweep removes a batch iff it is of that chain with timeout below the observed height; Minter batches are never withdrawn by BeginBlocker; an execution removes exactly the batch and (non-Minter) the older same-token batches. Monitors check the same on the implementation, with contract-consistent external executions.',
+            'note': _HUB_NOTE},
+    'C19': {'technique': 'Coq inequalities over Z for arbitrary batches + correspondence',
+            'level': 'Theorems for all batches/fee spreads/power splits: reimbursement <= total fee, sum of refunds <= surplus, each refund <= own fee (<=18 decimals), commission shares floor-proportional with sum <= collected, fee record within [0, fee]; the per-user bound is refuted for >18 decimals by a kernel-checked witness. Monitors on the implementation.',
+            'note': _HUB_NOTE},
+}
